@@ -27,6 +27,15 @@ Theorem C37_upload_reflects_label : forall w e,
 Proof. exact upload_reflects_label. Qed.
 Print Assumptions C37_upload_reflects_label.
 
+(* the snapshot gate: an attempt that finds the gate held copies nothing (it must fail: the
+   newest changes are still in the WAL), and Provide gets past up to 10 such attempts, handing
+   over the complete database after k+1 attempts *)
+Theorem C37_provide_retries_past_gate : forall db k,
+  backup_copy db AGate = None /\
+  ((k < 11)%nat -> provide 11 db (repeat AGate k) 0 = (Some db, 0 + N.of_nat k + 1)).
+Proof. exact provide_retries_past_gate. Qed.
+Print Assumptions C37_provide_retries_past_gate.
+
 Theorem C37_skips_when_unchanged : forall w e,
   e_li_err e = false -> ~ changed w -> round w e = (w, OSkipped, [CLast]).
 Proof. exact skips_when_unchanged. Qed.
